@@ -98,6 +98,7 @@ func c17CheckInventory(c *Ctx) {
 
 func runC17(c *Ctx) error {
 	defer c17CheckInventory(c) // after the dynamic evidence, so that a concrete failing run comes first
+	c17Sizing(c)               // sizing of the pooled scratch (c17sizing.go; cases of kind 2)
 	childOut := filepath.Join(c.OutDir, "child")
 	cmd := exec.Command(os.Args[0], "c17child", "-seed", fmt.Sprint(c.Seed), "-tier", c.Tier, "-out", childOut)
 	cmd.Env = append(os.Environ(), "GORACE=halt_on_error=0 exitcode=66")
